@@ -486,6 +486,72 @@ impl Scenario for C04 {
                 }
             }
         }
+        // mutated-valid key bytes: one-bit flips, truncations and insertions of honest key encodings
+        // (for v1 this walks the DER / PEM parsers of the rsa stack)
+        {
+            let mut seeds: Vec<(Kind, Vec<u8>)> = Vec::new();
+            if f == 1 {
+                for (sk, pk) in [crate::fixtures::RSA2048[len % 4], crate::fixtures::RSA4096[len % 2]] {
+                    if let (Some(a), Some(c)) = (crate::keycheck::pem_to_der(sk), crate::keycheck::pem_to_der(pk)) {
+                        seeds.push((if a.len() > 1500 { Kind::PkeSecret } else { Kind::Secret }, a));
+                        seeds.push((if c.len() > 400 { Kind::PkePublic } else { Kind::Public }, c));
+                    }
+                    seeds.push((Kind::Secret, sk.as_bytes().to_vec()));
+                    seeds.push((Kind::Public, pk.as_bytes().to_vec()));
+                }
+            } else {
+                let sc: Vec<u8> = {
+                    let mut v = crate::prng::Rng::new(b.ev_seed()).bytes(48);
+                    v[0] &= 0x7f;
+                    v
+                };
+                if f == 3 {
+                    if let Some(un) = crate::refimpl::p384_uncompressed_of_scalar(&sc) {
+                        let mut comp = vec![2 | (un[96] & 1)];
+                        comp.extend_from_slice(&un[1..49]);
+                        seeds.push((Kind::Public, comp));
+                        seeds.push((Kind::Public, un));
+                        seeds.push((Kind::Secret, sc));
+                    }
+                } else {
+                    let seed32: [u8; 32] = sc[..32].try_into().unwrap();
+                    if let Some(pk) = crate::refimpl::ed25519_public_of_seed(&seed32) {
+                        seeds.push((Kind::Public, pk.clone()));
+                        seeds.push((Kind::Secret, [&seed32[..], &pk].concat()));
+                    }
+                }
+            }
+            for (kind, bytes) in seeds {
+                for _ in 0..(if f == 1 { 6 } else { 12 }) {
+                    let mut m = bytes.clone();
+                    match b.rng.below(4) {
+                        0 => {
+                            let at = b.rng.usize_below(m.len());
+                            m[at] ^= 1 << b.rng.below(8);
+                        }
+                        1 => {
+                            let at = b.rng.usize_below(m.len());
+                            m.truncate(at);
+                        }
+                        2 => {
+                            let at = b.rng.usize_below(m.len());
+                            let x = b.rng.below(256) as u8;
+                            m.insert(at, x);
+                        }
+                        _ => {
+                            let at = b.rng.usize_below(m.len());
+                            m[at] = *b.rng.pick(&[0u8, 0xff, 0x80, 0x30, 0x02, 0x7f]);
+                        }
+                    }
+                    let slot = b.key_slot();
+                    b.push(Step::KeyFromRaw { slot, family: f, kind, bytes: Bytes::hex(&m) });
+                    for node in 0..nodes.len() {
+                        b.push(Step::KeyCheck { node, slot });
+                        b.push(Step::Id { node, slot });
+                    }
+                }
+            }
+        }
         // PBKW blobs with every parameter field at 0, 1, budget maximum
         let nist = f == 1 || f == 3;
         let param_sets: Vec<Vec<u8>> = if nist {
@@ -535,7 +601,7 @@ impl Scenario for C04 {
             }
         }
         // multi-byte characters at every character position of the header region of a valid-looking text
-        for (node, bk) in nodes.iter().enumerate() {
+        for (node, bk) in nodes.iter().enumerate().filter(|_| len % 5 == 0) {
             let _ = node;
             for art in Artifact::ALL {
                 let ver = if art.is_token() { "v" } else { "k" };
